@@ -219,7 +219,7 @@ def gen_cases(ctx, n: int) -> tuple[list[str], dict]:
     cases: list[str] = []
     stats = {"valid": 0, "mutated": 0, "exceptions": {}, "yields": 0, "skipped": 0}
     tries = 0
-    while len(cases) < n and tries < 6 * n:
+    while stats["valid"] + stats["mutated"] < n and tries < 6 * n:
         tries += 1
         rs = fam_parse.ref_stream(ctx)
         if rs is None:
@@ -247,7 +247,40 @@ def gen_cases(ctx, n: int) -> tuple[list[str], dict]:
             continue
         stats["mutated" if mutated else "valid"] += 1
         cases.append(f"tx_reader {fms} = {rhs}")
+        if exc is None and frames[0].rows and frames[0].rows[0].HasField("options"):
+            # the same stream through the grouped parser and parse_jelly_to_graph: the real ones from the bytes (their own
+            # get_options_and_frames), the translated ones from the options of the first frame and the frames
+            g = run_grouped(frames)
+            if g is not None:
+                def sink_lit(k):
+                    st = "[" + "; ".join(obj_lit(x) for x in k.store) + "]"
+                    ns = "[" + "; ".join(f"({nlist(p_)}, {obj_lit(i_)})" for p_, i_ in k.namespaces) + "]"
+                    return f"({st}, {ns})"
+                try:
+                    cases.append(f"tx_grouped {fms} = Some [" + "; ".join(sink_lit(k) for k in g[0]) + "]")
+                    cases.append(f"tx_to_graph {fms} = Some {sink_lit(g[1])}")
+                    stats["grouped"] = stats.get("grouped", 0) + 1
+                    stats["sinks"] = stats.get("sinks", 0) + len(g[0])
+                except ValueError:
+                    pass
     return cases, stats
+
+
+def run_grouped(frames):
+    import io
+
+    from pyjelly.integrations.generic import parse as gp
+    from pyjelly.serialize.ioutils import write_delimited
+
+    buf = io.BytesIO()
+    for f in frames:
+        write_delimited(f, buf)
+    try:
+        sinks = list(gp.parse_jelly_grouped(io.BytesIO(buf.getvalue())))
+        one = gp.parse_jelly_to_graph(io.BytesIO(buf.getvalue()))
+    except Exception:  # noqa: BLE001
+        return None
+    return sinks, one
 
 
 def pb_canon_lit(m) -> str:
